@@ -33,11 +33,24 @@ for line in kf['fixed']:
         continue
     sh('git -C /repo reset -q')
     t0 = time.time()
-    b = sh('cd /repo && cargo build -p dust_dds --offline 2>&1 | tail -3')
-    r = sh(f'cd /verif && ./check {prop} --tier quick', timeout=3600)
-    viol = [l for l in r.stdout.splitlines() if l.startswith('violation') or l.startswith('VIOLATION') or 'HARNESS' in l]
-    res[key] = {'property': prop, 'commit': commit, 'what': what, 'exit_code': r.returncode, 'detected': r.returncode == 1,
-                'first_violation': (viol[0][:400] if viol else ''), 'seconds': int(time.time() - t0)}
+    b = sh('cd /repo && cargo build -p dust_dds --offline')
+    if b.returncode != 0:
+        res[key] = {'property': prop, 'commit': commit, 'what': what, 'result': 'reverted tree does not compile (later repairs build on it)', 'detected': None}
+        sh('git -C /repo checkout -- . && git -C /repo reset -q')
+        json.dump(res, open(out_path, 'w'), indent=1)
+        print(key, 'does not compile', flush=True)
+        continue
+    props = [prop] + [x for x in re.findall(r'also (C\d+)', what) if x != prop]
+    runs = []
+    for pr in props:
+        r = sh(f'cd /verif && ./check {pr} --tier quick', timeout=3600)
+        viol = [l for l in r.stdout.splitlines() if l.startswith('violation') or 'HARNESS' in l]
+        runs.append({'check': pr, 'exit_code': r.returncode, 'first_violation': (viol[0][:400] if viol else '')})
+        if r.returncode == 1:
+            break
+    res[key] = {'property': prop, 'commit': commit, 'what': what, 'detected': any(x['exit_code'] == 1 for x in runs),
+                'caught_by': [x['check'] for x in runs if x['exit_code'] == 1], 'runs': runs,
+                'first_violation': next((x['first_violation'] for x in runs if x['exit_code'] == 1), ''), 'seconds': int(time.time() - t0)}
     sh('git -C /repo checkout -- . && git -C /repo reset -q')
     assert sh('git -C /repo status --porcelain').stdout.strip() == ''
     json.dump(res, open(out_path, 'w'), indent=1)
